@@ -1,7 +1,7 @@
 (* Properties_C12.v — linear solvers, inverses and factorisations. *)
 From Coq Require Import Floats.
 From mathcomp Require Import all_ssreflect all_algebra.
-From LS Require Import NumOps RcfOps F64Ops Kernels Algebra GJ Det DetLink Lse LseSpec GjExec GjTotal.
+From LS Require Import NumOps RcfOps F64Ops Kernels Algebra GJ Det DetLink Lse LseSpec GjExec GjTotal PinvSpec.
 Set Implicit Arguments. Unset Strict Implicit. Unset Printing Implicit Defensive.
 Import Order.TTheory GRing.Theory Num.Theory.
 Local Open Scope ring_scope.
@@ -38,6 +38,13 @@ Proof. exact: gj_pivots_nonzero. Qed.
 Theorem C12_executable_inverse_total (R : rcfType) n (M : seq (seq R)) : RcfOps.wf n n M -> RcfOps.mx_of n n M \in unitmx ->
   RcfOps.mx_of n n (gj_inverse M) = invmx (RcfOps.mx_of n n M).
 Proof. exact: gj_inverse_total. Qed.
+(* the pseudo-inverse: for every m x n matrix with invertible A'A (full column rank) the EXECUTABLE MatrixMoorePenrosePseudoinverse
+   (transpose, two products, the pivoting inversion above) computes (A'A)^-1 A' and satisfies the four Penrose conditions *)
+Theorem C12_pseudoinverse_penrose (R : rcfType) m n (A : seq (seq R)) : RcfOps.wf m n A ->
+  (RcfOps.mx_of m n A)^T *m RcfOps.mx_of m n A \in unitmx ->
+  let Am := RcfOps.mx_of m n A in let P := RcfOps.mx_of n m (pinv m n A) in
+  [/\ Am *m P *m Am = Am, P *m Am *m P = P, (Am *m P)^T = Am *m P & (P *m Am)^T = P *m Am].
+Proof. exact: pinv_exec_penrose. Qed.
 (* SolveLSE, the EXECUTABLE model (pre-pass, elimination with partial pivoting, back substitution into the
    caller's vector), over any real closed field and every size n:
    - the pre-pass and the elimination keep the solution set of [A | b], whatever the matrix;
@@ -76,6 +83,7 @@ Print Assumptions C12_det_laplace.
 Print Assumptions C12_executable_inverse.
 Print Assumptions C12_executable_inverse_pivots.
 Print Assumptions C12_executable_inverse_total.
+Print Assumptions C12_pseudoinverse_penrose.
 Print Assumptions C12_solve_lse_keeps_the_solution_set.
 Print Assumptions C12_solve_lse_solves.
 Print Assumptions C12_solve_lse_ignores_previous_contents.
